@@ -447,6 +447,22 @@ def step (_ : Unit) (line : String) : Unit × String :=
         let direct := msgs.map fun m => reply (.ok m)
         s!"{showItems remote} ## {if remote == direct && w.queue.isEmpty then "ok" else "fail websocket"}"
       | none => "bad-op"
+    | ["dcall", fn, ds, ws] =>
+      -- a thread nested `depth` levels, `width` replies per level: 1 + depth * width nodes.  The model's codecs are
+      -- total on every encoder output whatever the depth; the third-party decoders of the fixture are not:
+      -- serde_json (Json, SerdeLite) stops at 128 levels = depth 62, ciborium at 256 levels = depth 126
+      let limit? : Option (Option Nat) :=
+        if fn == "d_json" || fn == "d_serdelite" || fn == "d_json_cbor" then some (some 62)
+        else if fn == "d_cbor" then some (some 126)
+        else if fn == "d_msgpack" || fn == "d_postcard" then some none
+        else none
+      match limit?, ds.toNat?, ws.toNat? with
+      | some limit, some depth, some width =>
+        if depth > 400 || width > 4 || width == 0 then "bad-op" else
+        let tooDeep := match limit with | some l => depth > l | none => false
+        if tooDeep then "err Deserialization ## fail deep-nesting"
+        else s!"ok {depth} {1 + depth * width} ## ok"
+      | _, _, _ => "bad-op"
     | ["ncall", fn] =>
       let r? : Option (InEnc × Except SErr Bytes) :=
         if fn == "noargs_get" then (findEnc "GetUrl" inputEncodings).map fun ie => (ie, .ok (asciiB "pong|\n"))
